@@ -28,7 +28,7 @@ FACTORY = 'pyv.checks.c03:Session'
 CLIENTS = ['A', 'B', 'C']
 SIG_RULE = b"type='signal',interface='v.sig'"
 
-FORGERIES = ['none', 'sender-other', 'sender-bus', 'sender-self-wrong', 'unk11', 'unk200', 'unk255', 'cinst']
+FORGERIES = ['none', 'sender-other', 'sender-bus', 'sender-self-wrong', 'unk11', 'unk200', 'unk255', 'cinst', 'unk-run', 'unk-ends']
 KINDS = ['call', 'signal', 'return', 'error']
 TARGETS = ['unique', 'wellknown', 'broadcast', 'bus']
 
@@ -115,6 +115,13 @@ class Session(BusSession):
             m.fields.append((255, (b'ay', [(b'y', 1), (b'y', 2)])))
         elif forgery == 'cinst':
             m.fields.append((R.F_CONTAINER_INSTANCE, (b'o', b'/forged/instance')))
+        elif forgery == 'unk-run':
+            # several unknown fields NEXT TO each other (and the container instance among them), in the middle of the header
+            m.fields[1:1] = [(200, (b's', b'forged-a')), (201, (b'u', 7)), (R.F_CONTAINER_INSTANCE, (b'o', b'/forged/instance')), (11, (b's', b'forged-b')), (255, (b'ay', [(b'y', 1)]))]
+        elif forgery == 'unk-ends':
+            # unknown fields as the first and as the last two fields
+            m.fields.insert(0, (77, (b's', b'forged-first')))
+            m.fields += [(200, (b's', b'forged-c')), (201, (b's', b'forged-d'))]
         return m
 
     def check_monitor(self, out, opdesc):
